@@ -3,7 +3,7 @@
    a fixed cluster (two namespaces, three pods, two external addresses) and ALL NetworkPolicies over a tiny
    vocabulary: pod selector x policyTypes x (one rule, or none, in one direction) where the rule's peers are
    any set of at most MaxPeers peers of a 7-peer vocabulary (every peer kind, empty selectors, ipBlock with
-   except) and its ports any SEQUENCE of at most MaxPorts port entries of a 7-entry vocabulary (the
+   except) and its ports any SEQUENCE of at most MaxPorts port entries of an 8-entry vocabulary (the
    converter's per-protocol merging depends on the order).                                              *)
 EXTENDS Integers, Sequences, FiniteSets, TLC
 
@@ -36,7 +36,7 @@ PeerVocab ==
       [nsSel |-> SelNoTeam, podSel |-> SelAll], [nsSel |-> SelTeam, podSel |-> SelApp],
       [ipBlock |-> [cidr |-> [a |-> <<10, 0, 0, 0>>, n |-> 24], except |-> << [a |-> <<10, 0, 0, 128>>, n |-> 25] >>]] }
 PortVocab ==
-    { [port |-> 80], [port |-> 80, end |-> 81], [name |-> "http"],
+    { [port |-> 80], [port |-> 82], [port |-> 80, end |-> 81], [name |-> "http"],
       [proto |-> "UDP"], [proto |-> "UDP", port |-> 53], [proto |-> "UDP", name |-> "dns"], [proto |-> "SCTP", port |-> 80] }
 
 SetToSeq(S) == CHOOSE s \in [1..Cardinality(S) -> S] : \A i, j \in 1..Cardinality(S) : i # j => s[i] # s[j]
